@@ -2,7 +2,7 @@
 import json
 import re
 
-INTERNED = ("t", "m", "qt", "ct", "ret", "fta", "at", "base")
+INTERNED = ("t", "m", "qt", "ct", "ret", "fta", "at", "base", "st")
 
 
 def strip_targs(s):
